@@ -16,9 +16,11 @@ static std::string with_shape(const std::string& kind, const std::vector<ll>& v,
     if (kind == "vec") return f(vec_of<size_t>(v));
     if (kind == "veci") return f(vec_of<int>(v));
     if (kind == "sv") { nm::utl::static_vector<size_t, 8> a; a.resize(v.size()); for (size_t i = 0; i < v.size(); i++) a[i] = v[i]; return f(a); }
+#ifndef VD_LIGHT   // the sanitizer build keeps the run-time-sized kinds only (compile time)
     if (kind == "arr") return with_list<size_t>("arr", v, f);
     if (kind == "arri") return with_list<int>("arr", v, f);
     if (kind == "tup") return with_list<size_t>("tup", v, f);
+#endif
     return "unsupported";
 }
 
@@ -36,16 +38,24 @@ static std::string handle(const Case& c) {
         });
     }
     if (op == "bshape3") {
+        // three operands of the same container kind (vec / veci / sv): one instantiation per kind
         std::string k = c.args[0].raw.substr(2);
-        return with_shape(k, c.args[1].list, [&](const auto& a){
-            return with_shape(k, c.args[2].list, [&](const auto& b){
-                return with_shape(k, c.args[3].list, [&](const auto& cc) -> std::string {
-                    auto r = ix::broadcast_shape(a, b, cc);
-                    if (!nm::has_value(r)) return "nothing";
-                    return "ok " + show_index(nm::unwrap(r));
-                });
-            });
-        });
+        auto go = [&](auto tag) -> std::string {
+            using T = decltype(tag);
+            auto a = vec_of<T>(c.args[1].list); auto b = vec_of<T>(c.args[2].list); auto cc = vec_of<T>(c.args[3].list);
+            auto r = ix::broadcast_shape(a, b, cc);
+            if (!nm::has_value(r)) return "nothing";
+            return "ok " + show_index(nm::unwrap(r));
+        };
+        if (k == "vec") return go(size_t{});
+        if (k == "veci") return go(int{});
+        if (k == "sv") {
+            auto mk = [](const std::vector<ll>& v){ nm::utl::static_vector<size_t, 8> a; a.resize(v.size()); for (size_t i = 0; i < v.size(); i++) a[i] = v[i]; return a; };
+            auto r = ix::broadcast_shape(mk(c.args[1].list), mk(c.args[2].list), mk(c.args[3].list));
+            if (!nm::has_value(r)) return "nothing";
+            return "ok " + show_index(nm::unwrap(r));
+        }
+        return "unsupported";
     }
     if (op == "bshape4") {
         auto a = vec_of<size_t>(c.args[0].list); auto b = vec_of<size_t>(c.args[1].list);
